@@ -523,10 +523,86 @@ def translate_kernel(repo, k):
     return tr.translate()
 
 
+def junctors_tables(repo):
+    """Parse the docstring tables of junctors.Unary / junctors.Binary exactly as
+    RelationMeta.__init__ does (strip / partition / splitlines / split) and emit them as Coq lists."""
+    path = os.path.join(repo, 'concepts/junctors.py')
+    with open(path, encoding='utf-8') as f:
+        tree = ast.parse(f.read())
+    out = []
+    for clsname, binary in (('Unary', False), ('Binary', True)):
+        cls = None
+        for node in tree.body:
+            if isinstance(node, ast.ClassDef) and node.name == clsname:
+                cls = node
+        if cls is None:
+            raise Unsupported(f'class {clsname} not found')
+        doc = ast.get_docstring(cls, clean=False)
+        flag = None
+        for st in cls.body:
+            if isinstance(st, ast.Assign) and len(st.targets) == 1 and isinstance(st.targets[0], ast.Name) \
+                    and st.targets[0].id == 'binary' and isinstance(st.value, ast.Constant):
+                flag = st.value.value
+        if flag is not binary:
+            raise Unsupported(f'{clsname}.binary is not {binary}')
+        table = doc.strip().partition('\n\n')[2].strip().splitlines()
+        symbols = {'T': True, 'F': False}
+        if binary:
+            props = [tuple(symbols[f] for f in fg.strip()) for fg in table[0].strip('|').split('|')]
+        else:
+            props = [symbols[fg.strip()] for fg in table[0].strip('|').split('|')]
+        rows = []
+        for l in table[1:]:
+            obj, _, flags = l.strip('|').partition('|')
+            name, symbol, order = obj.split()
+            marks = [bool(p.strip()) for p in flags.split('|')]
+            pattern = [p for p, f in zip(props, marks) if f]
+            rows.append((name, int(order), pattern))
+        out.append((clsname, binary, rows))
+    return out
+
+
+def coq_bool(b):
+    return 'true' if b else 'false'
+
+
+def emit_junctors(repo):
+    parts = [HEADER % 'concepts/junctors.py (class docstring tables)']
+    for clsname, binary, rows in junctors_tables(repo):
+        items = []
+        for name, order, pattern in rows:
+            kind = '[' + '; '.join(str(ord(ch)) for ch in name.lower()) + ']'
+            if binary:
+                pat = '[' + '; '.join(f'({coq_bool(a)}, {coq_bool(b)})' for a, b in pattern) + ']'
+            else:
+                pat = '[' + '; '.join(coq_bool(a) for a in pattern) + ']'
+            o = f'{order}' if order >= 0 else f'({order})'
+            items.append(f'  ({pat}, {kind}, {o})')
+        ty = 'list (list (bool * bool) * list Z * Z)' if binary else 'list (list bool * list Z * Z)'
+        parts.append(f'Definition {clsname.lower()}_table : {ty} :=\n[\n' + ';\n'.join(items) + '\n].\n')
+    return '\n'.join(parts)
+
+
+def write_if_changed(path, text):
+    old = None
+    if os.path.exists(path):
+        with open(path, encoding='utf-8') as f:
+            old = f.read()
+    if old != text:
+        with open(path, 'w', encoding='utf-8') as f:
+            f.write(text)
+
+
 def main():
     repo, outdir = sys.argv[1], sys.argv[2]
     os.makedirs(outdir, exist_ok=True)
     status = {}
+    try:
+        write_if_changed(os.path.join(outdir, 'GenJunctors.v'), emit_junctors(repo))
+        status['GenJunctors.tables'] = 'ok'
+    except (Unsupported, SyntaxError, OSError, ValueError, KeyError, AttributeError) as e:
+        write_if_changed(os.path.join(outdir, 'GenJunctors.v'), f'(* translation of junctors tables FAILED: {e} *)\n')
+        status['GenJunctors.tables'] = f'failed: {e}'
     for mod, kernels in KERNELS.items():
         parts = [HEADER % ', '.join(sorted({k.file for k in kernels}))]
         for k in kernels:
